@@ -139,9 +139,9 @@ def states_for(tier, ns, nc):
     if n <= 3:
         al = ALPHA
     elif n == 4:
-        al = ALPHA if tier == "thorough" else [0.0, 0.25, 0.5, 1.0, 1.75, 100.0]
+        al = [0.0, 0.25, 0.5, 1.0, 1.75, 2.0, 99.5, 100.0] if tier == "thorough" else [0.0, 0.25, 0.5, 1.0, 1.75, 100.0]
     else:
-        al = [0.0, 0.25, 0.5, 1.0, 1.75, 2.0] if tier == "thorough" else [0.0, 0.5, 1.75]
+        al = [0.0, 0.25, 1.0, 1.75] if tier == "thorough" else [0.0, 0.5, 1.75]
     out = [list(c) for c in itertools.product(al, repeat=n)]
     if n > 4:
         base = [0.25, 0.0, 0.5, 1.75, 0.0, 1.0][:n]
@@ -154,7 +154,7 @@ def states_for(tier, ns, nc):
 
 
 def gen_cases(tier, seed0):
-    seeds = list(range(1000 * seed0, 1000 * seed0 + (2 if tier == "quick" else 8)))
+    seeds = list(range(1000 * seed0, 1000 * seed0 + (2 if tier == "quick" else 4)))
     if 0 not in seeds:
         seeds.append(0)          # the smallest valid seed is always part of the window
     combos = [("tauleap", "auto"), ("gillespie", "redist"), ("gillespie", "Poisson"), ("tauleap", "Poisson"),
@@ -215,14 +215,14 @@ def run(ctx):
             continue
         core.merge(ctx, r)
         done += job[1] - job[0]
-    ctx.subspace("all assignments of the dyadic alphabet {0,1/4,1/2,1,7/4,2,99.5,100,150.25,1000} (reduced alphabets for 4 and 6 "
-                 "entries, plus every placement of one large value) to (species,cells) in {(1,1),(1,3),(2,2),(2,3),(3,2)} x "
+    ctx.subspace("all assignments of the dyadic alphabet {0,1/4,1/2,1,7/4,2,99.5,100,150.25,1000} (<= 3 entries; 8 resp. 6 values for 4 "
+                 "entries, 4 resp. 3 values for 6 entries, plus every placement of one large value) to (species,cells) in {(1,1),(1,3),(2,2),(2,3),(3,2)} x "
                  "{grid,graph} x 9 (engine, processing mode) combinations x seed window", len(_CASES), done,
                  exhaustive=(done == len(_CASES)))
     ctx.rule("one case per (shape, state, space type, engine, mode, seed); non-trivial = state not identically zero; "
              "set-up runs in a supervised worker (60 s limit per chunk, single-case re-run on a hang)")
     ctx.assume("dyadic amounts make floor(total) exact; std::poisson_distribution / normal_distribution themselves are "
-               "trusted, the check pins their parameters (probe log); seed window [1000*VERIF_SEED, +2 quick / +8 thorough)")
+               "trusted, the check pins their parameters (probe log); seed window [1000*VERIF_SEED, +2 quick / +4 thorough) plus seed 0")
 
 
 def replay(case):
